@@ -90,6 +90,36 @@ def main(tier='quick'):
             v.report({'site': 'asceprovider.accept', 'clause': k}, '%s: %r (cfg=%r rq=%r)' % (k, val, cfg, rq), replay={'cfg': cfg, 'rq': rq})
         cases.append({'kind': 'accept', 'cfg': cfg, 'rq': rq, 'ans': ans})
         metas.append((cfg, rq, ans))
+    # ONE entity with a history: the same request before and after each service is registered (and a different request
+    # in between); every association is judged against the configuration the entity has at that moment
+    lists = ts_lists()
+    n_hist = 0
+    for h in range(40 if tier == 'quick' else 400):
+        sup = rng.choice([list(c) for m in (1, 2, 3, 4) for c in itertools.combinations(TS, m)])
+        order = rng.choice([['S1', 'S2'], ['S2', 'S1'], ['S1'], ['S2']])
+        ent = N.History([N.TS_UID[t] for t in sup])
+        ctxs = [(rng.choice(AS), rng.choice(lists)) for _ in range(rng.choice([1, 2, 3, 5]))]
+        if not any(a in order for a, _ in ctxs):
+            ctxs.append((order[0], rng.choice(lists)))
+        other = [(rng.choice(AS), rng.choice(lists)) for _ in range(2)]
+        served = []
+        for step in [None] + order:
+            if step is not None:
+                ent.add([N.AS_UID[step]])
+                served.append(step)
+            for which in (ctxs, other, ctxs):
+                cfg, rq = make_case(served, sup, which, rng)
+                n_hist += 1
+                try:
+                    ans, acc, ann, notes = N.run_accept(cfg, rq, entity=ent)
+                except Exception as exc:      # noqa
+                    v.report({'site': 'asceprovider.accept', 'clause': 'raised-after-reconfiguration', 'exc': type(exc).__name__},
+                             'accept() raised %s: %s on an entity configured step by step (%r), rq=%r' % (type(exc).__name__, exc, served, rq))
+                    continue
+                for k, val in notes.items():
+                    v.report({'site': 'asceprovider.accept', 'clause': k, 'history': True}, '%s: %r on an entity configured step by step (served now %r, rq=%r)' % (k, val, served, rq))
+                cases.append({'kind': 'accept', 'cfg': cfg, 'rq': rq, 'ans': ans})
+                metas.append((dict(cfg, history='one entity, services registered one by one: %r so far' % (served,)), rq, ans))
     res, stats = tlc.validate_traces('Trace_Negotiation', 'Trace_Negotiation.cfg', [[c] for c in cases], chunk=20000)
     for (cfg, rq, ans), r in zip(metas, res):
         if r['reached'] != 1:
@@ -97,13 +127,13 @@ def main(tier='quick'):
         for clause in (r['bad_inv'] or []):
             v.report({'site': 'asceprovider.accept', 'clause': clause},
                      '%s: cfg=%r request contexts=%r answer=%r routing=%r dispatch=%r' % (clause, cfg, rq['ctxs'], ans['ctxs'], ans['routing'], ans['dispatch']),
-                     replay={'cfg': cfg, 'rq': rq})
+                     replay=None if 'history' in cfg else {'cfg': cfg, 'rq': rq})
     ev = {'tier': tier, 'level': 'model_checking',
           'coverage': {'states': mc.distinct, 'transitions': mc.generated, 'traces_validated_against_impl': len(cases),
                        'judge_states': stats['states'],
                        'samples': [cases[5], cases[len(cases) // 2]], 'exhaustive': tier == 'thorough',
-                       'explanation': 'all 64 configurations x all requests with 0..1 contexts (121) exhaustively; 2 contexts: %s; 3..60 contexts seeded' %
-                                      ('all 14400 pairs' if tier == 'thorough' else '60 seeded pairs per configuration')},
+                       'explanation': 'all 64 configurations x all requests with 0..1 contexts (121) exhaustively; 2 contexts: %s; 3..60 contexts seeded; %d associations on entities whose services are registered one by one between associations' %
+                                      (('all 14400 pairs' if tier == 'thorough' else '60 seeded pairs per configuration'), n_hist)},
           'assumptions': ['abstract syntaxes S1,S2 (servable), U (never served); transfer syntaxes T1..T4; real UIDs substituted']}
     return v.finish(ev)
 
